@@ -135,11 +135,13 @@ theorem exitCodeOpt_unlines (code : Int) : exitCodeOpt code = unlines (exitLines
 def cfgBraces : ConfigDiff → Line
   | .empty => []
   | .stderr => '{' :: (['o', 'u', 't', 'p', 'u', 't', '_', 's', 't', 'r', 'e', 'a', 'm', ':', ' ', 's', 't', 'd', 'e', 'r', 'r'] ++ ['}'])
+  | .cramDefaults => '{' :: (['o', 'u', 't', 'p', 'u', 't', '_', 's', 't', 'r', 'e', 'a', 'm', ':', ' ', 'c', 'o', 'm', 'b', 'i', 'n', 'e', 'd', ',', ' ', 'k', 'e', 'e', 'p', '_', 'c', 'r', 'l', 'f', ':', ' ', 't', 'r', 'u', 'e'] ++ ['}'])
 
 /-- the text between the braces -/
 def cfgInner : ConfigDiff → Option Line
   | .empty => none
   | .stderr => some ['o', 'u', 't', 'p', 'u', 't', '_', 's', 't', 'r', 'e', 'a', 'm', ':', ' ', 's', 't', 'd', 'e', 'r', 'r']
+  | .cramDefaults => some ['o', 'u', 't', 'p', 'u', 't', '_', 's', 't', 'r', 'e', 'a', 'm', ':', ' ', 'c', 'o', 'm', 'b', 'i', 'n', 'e', 'd', ',', ' ', 'k', 'e', 'e', 'p', '_', 'c', 'r', 'l', 'f', ':', ' ', 't', 'r', 'u', 'e']
 
 /-- the block that `create` writes: `n` backticks, the command lines, the generated texts `ts`, the exit code -/
 def createBlock (n : Nat) (cfg : ConfigDiff) (c0 : Line) (more ts : List Line) (code : Int) : Block :=
@@ -241,11 +243,16 @@ theorem opener_read (n : Nat) (hn : 3 ≤ n) (cfg : ConfigDiff) :
     have := Update.fence_reread_config n hn language langOK_scrut
       ['o', 'u', 't', 'p', 'u', 't', '_', 's', 't', 'r', 'e', 'a', 'm', ':', ' ', 's', 't', 'd', 'e', 'r', 'r']
     exact congrArg _ this
+  | cramDefaults =>
+    have := Update.fence_reread_config n hn language langOK_scrut
+      ['o', 'u', 't', 'p', 'u', 't', '_', 's', 't', 'r', 'e', 'a', 'm', ':', ' ', 'c', 'o', 'm', 'b', 'i', 'n', 'e', 'd', ',', ' ', 'k', 'e', 'e', 'p', '_', 'c', 'r', 'l', 'f', ':', ' ', 't', 'r', 'u', 'e']
+    exact congrArg _ this
 
 theorem stripBraces_cfg (cfg : ConfigDiff) : stripBraces (cfgBraces cfg) = cfgInner cfg := by
   cases cfg with
   | empty => rfl
   | stderr => exact Update.stripBraces_braces _ (by decide)
+  | cramDefaults => exact Update.stripBraces_braces _ (by decide)
 
 theorem exitLine_exit (code : Int) (h0 : 0 ≤ code) (h1 : code ≤ 255) :
     extractExitCode ('[' :: (showInt code ++ [']'])) = some code.toNat := by
@@ -290,7 +297,7 @@ theorem expLines_after {env : Env} (ts : List Line) (hts : ∀ t ∈ ts, TextOK 
 theorem clean_of_no (l : Line) (h1 : '\n' ∉ l) (h2 : l.getLast? ≠ some '\r') : Clean l := ⟨h1, h2⟩
 
 theorem createBlock_wf (env : Env) (hlang : env.languages = [language])
-    (hcfg : ∀ c, cfgInner .stderr = some c → env.testCfgOk c = true)
+    (hcfg : ∀ cfg c, cfgInner cfg = some c → env.testCfgOk c = true)
     (cfg : ConfigDiff) (c0 : Line) (more ts : List Line) (hcmd : ∀ l ∈ c0 :: more, '\n' ∉ l)
     (hts : ∀ t ∈ ts, TextOK env t) (code : Int) (h0 : 0 ≤ code) (h1 : code ≤ 255) (n : Nat)
     (hn : n = Gen.maxBacktickSize (unlines (createBlock n cfg c0 more ts code).body) + 1) :
@@ -321,7 +328,8 @@ theorem createBlock_wf (env : Env) (hlang : env.languages = [language])
     rw [stripBraces_cfg]
     cases cfg with
     | empty => trivial
-    | stderr => exact hcfg _ rfl
+    | stderr => exact hcfg .stderr _ rfl
+    | cramDefaults => exact hcfg .cramDefaults _ rfl
   · have := fence_safe _ hbody_nl
     rw [← hn] at this
     exact this
@@ -389,7 +397,7 @@ theorem clean_exitLine (code : Int) (h0 : 0 ≤ code) (h1 : code ≤ 255) :
 /-- **the document `create` prints is parsed back as one test**: command lines, generated texts,
 exit code, inline configuration -/
 theorem create_markdown_parses (env : Env) (hlang : env.languages = [language])
-    (hcfg : ∀ c, cfgInner .stderr = some c → env.testCfgOk c = true)
+    (hcfg : ∀ cfg c, cfgInner cfg = some c → env.testCfgOk c = true)
     (cfg : ConfigDiff) (c0 : Line) (more ts : List Line)
     (hcmd : ∀ l ∈ c0 :: more, '\n' ∉ l ∧ l.getLast? ≠ some '\r')
     (hts : ∀ t ∈ ts, TextOK env t) (code : Int) (h0 : 0 ≤ code) (h1 : code ≤ 255) :
@@ -452,7 +460,7 @@ texts `ts[i]` that `generate_expectation_line` writes for line `i`), the exit co
 the inline configuration. -/
 theorem create_markdown_end_to_end {P : Grammar.Params} (hP : StdParams P) (m : Esc.Mode) (isOther : Char → Bool)
     (hC : m = .unicode → AsciiContract isOther) (env : Env) (hlang : env.languages = [language])
-    (hcfg : ∀ c, cfgInner .stderr = some c → env.testCfgOk c = true)
+    (hcfg : ∀ cfg c, cfgInner cfg = some c → env.testCfgOk c = true)
     (hexp : ∀ t e, Grammar.parse P t = .ok e → env.expOk t = true)
     (cfg : ConfigDiff) (c0 : Line) (more : List Line) (hlines : CmdLines (c0 :: more))
     (hcr : ∀ l ∈ c0 :: more, l.getLast? ≠ some '\r')
